@@ -1301,6 +1301,9 @@ func runC14(c *Ctx) error {
 		offer(w.format, w.bs, w.kind, nil)
 	}
 
+	// ---- door-inventory sweep (c14doors.go)
+	runC14Doors(c, offer, roundTrip, validM, validB)
+
 	// ---- overlapping calls of every writer and reader
 	runC14Concurrent(c)
 
